@@ -152,7 +152,7 @@ theorem spec_sessionHead (env : PEnv) (orc : EvalOracles) (input : Bytes) (expr 
   · dsimp only at hmd hsp hok
     subst hmd hsp
     obtain ⟨hdirp, hdirt, hoth⟩ := dir_spool_bind hf1 hf2 hne hd
-    have hclean : ∀ w2 es, w2.dirPath d = some (spoolPath env) → w2.dir (spoolPath env) = some es → es.length ≤ 62 →
+    have hclean : ∀ w2 es, w2.dirPath d = some (spoolPath env) → w2.dir (spoolPath env) = some es → es.length ≤ 61 →
         (∀ e ∈ es, (95 : UInt8) ∈ e.1) → w2.dir (spoolRoot env) = some [] →
         (∀ q, (w2.dir q).isSome = (w1.dir q).isSome) →
         CleanPre w w2 { md0 with root := spoolRoot env, path := spoolPath env, dirH := some d } := by
@@ -181,7 +181,7 @@ theorem spec_sessionHead (env : PEnv) (orc : EvalOracles) (input : Bytes) (expr 
       have base : WalkBase ⟨d, spoolPath env, spoolRoot env⟩ w1 w1 :=
         ⟨⟨fun _ _ _ => rfl, Nat.le_refl _, fun _ => rfl, hdirt⟩, ⟨none, 0, hobj⟩,
           ⟨name, name, h95, h95, ⟨[(name, fid)], hdirp, by simp, by simp⟩⟩⟩
-      refine wp_mono (spec_walk_sp ⟨d, spoolPath env, spoolRoot env⟩ hS env orc expr name input fid h95 w1 64 _ true base
+      refine wp_mono (spec_walk_sp ⟨d, spoolPath env, spoolRoot env⟩ hS env orc expr name input fid h95 w1 (stdinFuel env) _ true base
         ?_ ?_ ?_ ?_ (by intro h; cases h)) ?_
       · intro x hx
         rw [hrem] at hx
@@ -193,7 +193,8 @@ theorem spec_sessionHead (env : PEnv) (orc : EvalOracles) (input : Bytes) (expr 
         have h2 : ¬ ([46, 46] : Bytes) = name := fun h => hnd.2 h.symm
         simp [h1, h2]
       · rw [hrem, length_sortedNames]
-        simp
+        simp only [List.length_cons, List.length_nil, stdinFuel]
+        omega
       · intro _
         refine ⟨by rw [hrem]; exact (hmemS name).2 (.inr (.inr rfl)), ⟨hdirp, hfile, hfid, Files.get_put _ _ _ _, hdirt⟩⟩
       · rintro ⟨st', md'⟩ w2 ⟨hmd', base2, hdone⟩
